@@ -595,12 +595,37 @@ Qed.
 
 (* ======================================================================================== *)
 (* ---- parseSize: what an accepted size string yields ---- *)
+Lemma size_times_range n mult : - two63 <= size_times n mult < two63.
+Proof. unfold size_times. destruct (_ || _); [unfold two63; lia | apply wrap64_range]. Qed.
+
+(* the guard of parseSize: the product is formed only when it fits, and then it is exact *)
+Lemma size_times_exact n mult v :
+  1 <= mult -> size_times n mult = v -> 1 <= v -> 0 <= n /\ v = n * mult /\ n * mult <= max_int64.
+Proof.
+  unfold size_times. intros Hm H Hv.
+  destruct ((n <? 0) || (n >? max_int64 / mult)) eqn:E; [lia|].
+  apply orb_false_iff in E as [E1 E2]. apply Z.ltb_ge in E1. rewrite Z.gtb_ltb in E2. apply Z.ltb_ge in E2.
+  assert (Hle : n * mult <= max_int64).
+  { pose proof (Z.mul_div_le max_int64 mult ltac:(lia)). nia. }
+  rewrite wrap64_id in H by (unfold max_int64, two63 in *; nia). auto.
+Qed.
+
+Lemma size_times_fits n mult :
+  1 <= mult -> 0 <= n -> n * mult <= max_int64 -> size_times n mult = n * mult.
+Proof.
+  intros Hm Hn Hle. unfold size_times.
+  replace (n <? 0) with false by (symmetry; apply Z.ltb_ge; lia).
+  replace (n >? max_int64 / mult) with false.
+  2:{ symmetry. rewrite Z.gtb_ltb. apply Z.ltb_ge. apply Z.div_le_lower_bound; lia. }
+  cbn [orb]. apply wrap64_id. unfold max_int64, two63 in *. nia.
+Qed.
+
 Lemma parse_size_units_range s us : - two63 <= parse_size_units s us < two63.
 Proof.
   induction us as [|[sym mult] r IH]; cbn [parse_size_units].
   - unfold two63; lia.
   - destruct (has_suffix s sym); [|exact IH].
-    destruct (parse_int64 _); [apply wrap64_range | unfold two63; lia].
+    destruct (parse_int64 _); [apply size_times_range | unfold two63; lia].
 Qed.
 
 Theorem accept_size_range s v : accept_size s = Some v -> 1 <= v <= max_int64.
@@ -678,7 +703,7 @@ Qed.
 Lemma parse_size_units_found s : forall us v,
   parse_size_units s us = v -> 1 <= v ->
   exists sym mult n, In (sym, mult) us /\ has_suffix s sym = true /\
-    parse_int64 (firstn (length s - length sym) s) = Some n /\ v = wrap64 (n * mult).
+    parse_int64 (firstn (length s - length sym) s) = Some n /\ v = size_times n mult.
 Proof.
   induction us as [|[sym mult] r IH]; intros v H Hv; cbn [parse_size_units] in H.
   - lia.
@@ -705,11 +730,10 @@ Proof.
   split; apply N.eqb_neq; lia.
 Qed.
 
-Theorem accept_size_denotes s v :
+Theorem accept_size_exact s v :
   accept_size s = Some v ->
-  exists n u, denote s = Some (n, u) /\ - two63 <= n < two63 /\ 1 <= u <= 1073741824 /\
-    v = wrap64 (n * u) /\ 1 <= v <= max_int64 /\
-    (- two63 <= n * u < two63 -> v = n * u /\ 1 <= n * u).
+  exists n u, denote s = Some (n, u) /\ v = n * u /\ 1 <= v <= max_int64 /\
+    0 <= n < two63 /\ 1 <= u <= 1073741824.
 Proof.
   intros Hacc. pose proof (accept_size_range _ _ Hacc) as Hrange.
   unfold accept_size in Hacc. destruct (parse_size s <? 1) eqn:Hlt; [discriminate|].
@@ -731,17 +755,8 @@ Proof.
       rewrite (span_digits_app ds sym Hall Hhead). destruct ds; [congruence|]. rewrite Hu. subst n. reflexivity.
     - cbn [app]. change (45 =? 43)%N with false. rewrite N.eqb_refl.
       rewrite (span_digits_app ds sym Hall Hhead). destruct ds; [congruence|]. rewrite Hu. subst n. reflexivity. }
-  split; [exact Hden|]. split; [exact Hnr|]. split; [exact Hmult|]. split; [exact Hw|].
-  split; [exact Hrange|]. intros Hin64. rewrite wrap64_id in Hw by exact Hin64. split; [exact Hw | lia].
-Qed.
-
-(* the product is an int64 product: an accepted string whose number*unit overflows yields
-   a WRAPPED value, not an error *)
-Theorem parse_size_exact_refuted :
-  exists s n u v, denote s = Some (n, u) /\ accept_size s = Some v /\ v <> n * u.
-Proof.
-  exists (bs "18014398509481985KB"%string), 18014398509481985, 1024, 1024.
-  split; [vm_compute; reflexivity|]. split; [vm_compute; reflexivity|]. lia.
+  destruct (size_times_exact n mult v (proj1 Hmult) (eq_sym Hw) (proj1 Hrange)) as (Hn0 & Hvx & _).
+  split; [exact Hden|]. split; [exact Hvx|]. split; [exact Hrange|]. split; [lia | exact Hmult].
 Qed.
 
 (* ======================================================================================== *)
@@ -1005,7 +1020,7 @@ Lemma parse_size_units_complete (sign ds : bytes) neg sym mult :
   (sign = [] /\ neg = false) \/ (sign = [43%N] /\ neg = false) \/ (sign = [45%N] /\ neg = true) ->
   - two63 <= signed neg (dec ds) < two63 ->
   In (sym, mult) units ->
-  parse_size_units ((sign ++ ds) ++ sym) units = wrap64 (signed neg (dec ds) * mult).
+  parse_size_units ((sign ++ ds) ++ sym) units = size_times (signed neg (dec ds)) mult.
 Proof.
   intros Hne Hall Hs Hr Hin.
   pose proof (parse_int64_complete sign ds neg Hne Hall Hs Hr) as Hp.
@@ -1093,7 +1108,7 @@ Proof.
   { rewrite <- Hn. unfold max_int64, two63 in *. nia. }
   unfold accept_size, parse_size. fold U. rewrite EU.
   rewrite (parse_size_units_complete sign ds neg sym u Hne Hall Hsg Hn64 Hin).
-  rewrite <- Hn. rewrite wrap64_id by (unfold max_int64, two63 in *; lia).
+  rewrite <- Hn. rewrite size_times_fits by nia.
   replace (n * u <? 1) with false by (symmetry; apply Z.ltb_ge; lia). reflexivity.
 Qed.
 
